@@ -11,8 +11,8 @@ macro_rules! clean {
         }
     };
 }
-clean!(clean_v4_small_n0, Ipv4AddrBytes, 0, 1, 4, false, true);
-clean!(clean_v4_small_n1, Ipv4AddrBytes, 1, 2, 4, false, true);
+clean!(clean_v4_small_n0, Ipv4AddrBytes, 0, 1, 2, false, true);
+clean!(clean_v4_small_n1, Ipv4AddrBytes, 1, 2, 3, false, true);
 clean!(clean_v4_small_n2, Ipv4AddrBytes, 2, 3, 5, false, true);
 clean!(clean_v4_large_n3, Ipv4AddrBytes, 3, 4, 6, true, true);
 clean!(clean_v4_large_n4, Ipv4AddrBytes, 4, 5, 7, true, true);
@@ -34,6 +34,27 @@ macro_rules! cleanmaps {
 cleanmaps!(cleanmaps_1_2, 1, 2, 2, 3, 5, false, false);
 cleanmaps!(cleanmaps_3_2, 3, 4, 2, 3, 6, true, false);
 cleanmaps!(cleanmaps_2_3, 2, 3, 3, 4, 6, false, true);
+
+
+macro_rules! leaf {
+    ($name:ident, $ip:ty, $n:literal, $b:literal, $unw:literal, $large:literal, $pc:literal) => {
+        #[kani::proof]
+        #[kani::unwind($unw)]
+        fn $name() {
+            h::peermap_clean_leaf::<$ip, $n, $b>($large, $pc);
+        }
+    };
+}
+// peer_clients off: pushing the large StatisticsMessage enum into a heap Vec is what makes the
+// statistics variants expensive for CBMC (30+ GB); they are separate harnesses
+leaf!(leaf_clean_v4_small_n0, Ipv4AddrBytes, 0, 1, 3, false, false);
+leaf!(leaf_clean_v4_small_n1, Ipv4AddrBytes, 1, 2, 4, false, false);
+leaf!(leaf_clean_v4_small_n2, Ipv4AddrBytes, 2, 3, 5, false, false);
+leaf!(leaf_clean_v4_large_n3, Ipv4AddrBytes, 3, 4, 6, true, false);
+leaf!(leaf_clean_v4_large_n4, Ipv4AddrBytes, 4, 5, 7, true, false);
+leaf!(leaf_clean_v6_large_n3, Ipv6AddrBytes, 3, 4, 6, true, false);
+leaf!(leaf_cleanstats_v4_small_n1, Ipv4AddrBytes, 1, 2, 4, false, true);
+leaf!(leaf_cleanstats_v4_large_n3, Ipv4AddrBytes, 3, 4, 6, true, true);
 
 #[cfg(verif_pb_clean)]
 include!(env!("VERIF_PLAYBACK_FILE"));
